@@ -15,6 +15,7 @@
 package middlewares
 
 import (
+	"bytes"
 	"io"
 
 	"github.com/gofiber/fiber/v2"
@@ -24,6 +25,14 @@ func wrapBodyReader(ctx *fiber.Ctx, wr func(io.Reader) io.Reader) {
 	r, ok := ctx.Locals("body-reader").(io.Reader)
 	if !ok {
 		r = ctx.Request().BodyStream()
+	}
+	if r == nil {
+		// a request that announces no body (neither Content-Length
+		// nor Transfer-Encoding) has no body stream. The readers that
+		// are stacked on top still have to run (they verify the
+		// signature and the checksums when the body ends), so give
+		// them an empty body instead of a nil reader to dereference
+		r = bytes.NewReader(nil)
 	}
 
 	r = wr(r)
